@@ -133,6 +133,13 @@ def failover(args, seed, d):
         while F.alive() and time.time() - t0 < 20 and any(t.is_alive() for t in threads):
             time.sleep(0.01)
         died_at_gate = not F.alive()
+        if died_at_gate and "panic:" in cl.tail(F, 6000):
+            # the gate kills with SIGKILL and leaves no trace in the log: this node brought itself down
+            died_at_gate = False
+            result["violations"].append(({"branch": "cluster.node", "kind": "node-died", "detail": name.split("#")[0]},
+                                         {"scenario": name, "faults": list(stats["faults"]), "log": cl.tail(F, 2500)},
+                                         "node %d (restarted, catching up as a follower under write load) died by itself in scenario %s: %s" % (
+                                             F.id, name, cl.tail(F, 6000)[cl.tail(F, 6000).find("panic:"):][:300])))
         cl.stop_cont(L, True)           # the leader may not re-send what it has: freeze it, then lose it
         stop.set()
         stats["faults"].append("follower %d %s; SIGSTOP + kill leader %d" % (F.id, "died at the gate" if died_at_gate else "never reached the gate", L.id))
